@@ -80,6 +80,8 @@ def run(ctx: Ctx, which=WHICH, props=PROPS, assume=None) -> int:
     })
     for d in diffs:
         ctx.broken.append("model and implementation disagree: %s" % json.dumps(d, ensure_ascii=False)[:300])
+    from lib import h_dispatch                      # dispatch / store layer: Props/Cxx_dispatch.v + H-dispatch
+    findings += h_dispatch.hook(ctx, which)
     if findings:
         for f in findings[:3]:
             ctx.violation("impl-counterexample", f["what"], input=f)
@@ -91,8 +93,9 @@ def run(ctx: Ctx, which=WHICH, props=PROPS, assume=None) -> int:
 
 ASSUME = [
     "restore (save s) = s (hypothesis of C05_checkpoint_restore_transparent; exercised by the reload steps)",
-    "which listeners react to an offered callback (wildcards, '$' patterns, addons) is inside the router, which the theorems "
-    "quantify over; the correspondence compares the exact list of actions the real router receives with the model's queue",
+    "which listeners react to an offered callback (wildcards, '$' patterns, addons): Props/C05_dispatch.v proves, over Model/Dispatch.v, that "
+    "every listening component is invoked exactly once per callback, before / after the action; that model is tied to simulate/base.py and "
+    "component/base.py by the H-dispatch correspondence (tools/lib/h_dispatch.py: _find_mapping_name, callbacks, whole-play invocation traces)",
     "hand-written model coq/theories/Model/Play.v tied to simulate/base.py play() by that comparison on every recorded play",
 ]
 
